@@ -12,7 +12,7 @@ RULE = ("random positive spectra of the admissible dimensionality with UNEQUAL a
         "3x3; 3-D, 4-D lengths 3..5): f3/f4 vs the documented combinations of f2 of the two-population marginals (`view -m` "
         "then `stat`); every statistic named by the property before and after `fold --fill zero`; with the two monomorphic "
         "entries overwritten by arbitrary values; after swapping the two populations (transposed text); after scaling by "
-        "c in {0.5, 3, 1000}. All values from `sfs stat --precision 15`, compared within 1e-9 relative. non-trivial = "
+        "c in {0.5, 3, 1000, 2^-20 (total below one)}. All values from `sfs stat --precision 15`, compared within 1e-9 relative. non-trivial = "
         "statistic value non-zero")
 
 FOLD_INV = ["pi", "theta", "s", "d-tajima", "pi-xy", "f2", "f3", "f4", "fst", "king", "r0", "r1"]
@@ -100,8 +100,8 @@ def check(rep, tier, seed):
     # scaling
     cases, expect = [], []
     for st, sh, data in base:
-        for c in (Fraction(1, 2), 3, 1000):
-            d2 = [str(float(Fraction(x) * c)) if c == Fraction(1, 2) else str(x * c) for x in data]
+        for c in (Fraction(1, 2), 3, 1000, Fraction(1, 1048576)):
+            d2 = [repr(float(Fraction(x) * c)) if isinstance(c, Fraction) else str(x * c) for x in data]
             r = refv[(st, tuple(sh), tuple(data))]
             if st in DEG0:
                 cases.append((st, sh, d2)); expect.append((r, (st, sh, data)))
